@@ -9,6 +9,9 @@ CONSTANTS
   Dirs = {"w2r", "r2w"}
   Others = {"same", "none", "diff"}
   Astray = TRUE
+  Eps2 = {}
+  LooseList = FALSE
+  GenS = 0
   LooseKid = FALSE
   GenK = 40
   GenC = 6
